@@ -4,6 +4,7 @@
   `Wr.writeAll user_data`; `readU64`, `readN NETCODE_USER_DATA_BYTES`).
   Headline statements in `Props/SrcTieNcToken.lean`.
 -/
+import RenetVerif.Generated.Src.NcToken
 import RenetVerif.Lemmas.SrcEquiv.NcSerialize
 namespace RenetVerif.SrcEquiv
 open RenetVerif RenetVerif.RustSem
